@@ -393,17 +393,31 @@ fn glide_session(sc: &Value, tr: &mut Tracer) {
 	let st = sc["st"].as_i64().unwrap_or(750);
 	tr.reset(json!({"kind": "glide", "cls": "glide", "sk": sk, "w": w, "d": d, "tol": 60}));
 	let input = Frame::from_mono(0.5);
-	let mut sim = Sim::basic();
-	let mut listener = sim.manager.add_listener(Vec3::ZERO, Quat::IDENTITY).unwrap();
 	let e0 = Vec3::new(ev[0], ev[1], ev[2]);
-	let builder = SpatialTrackBuilder::new().distances((1.0, 12.0)).spatialization_strength(st as f32 / 1000.0);
-	let mut track = sim.manager.add_spatial_sub_track(listener.id(), e0, builder).unwrap();
-	let stats: Arc<ProbeStats> = Default::default();
-	track.play(ProbeData { frame: input, stats }).unwrap();
+	let build = |sim: &mut Sim| {
+		let listener = sim.manager.add_listener(Vec3::ZERO, Quat::IDENTITY).unwrap();
+		let builder = SpatialTrackBuilder::new().distances((1.0, 12.0)).spatialization_strength(st as f32 / 1000.0);
+		let mut track = sim.manager.add_spatial_sub_track(listener.id(), e0, builder).unwrap();
+		let stats: Arc<ProbeStats> = Default::default();
+		track.play(ProbeData { frame: input, stats }).unwrap();
+		(listener, track)
+	};
+	// fresh: the motion is commanded right after listener and track were created, before their first callback; the level
+	// before the motion is then taken from a second, unmoved copy of the scene
+	let fresh = sc["fresh"].as_bool().unwrap_or(false);
+	let mut sim = Sim::basic();
+	let (mut listener, mut track) = build(&mut sim);
 	// the clock ticks once per buffer
 	let mut clock = sim.manager.add_clock(kira::clock::ClockSpeed::TicksPerSecond(RATE as f64 / NF as f64)).unwrap();
-	sim.callback(NF);
-	let base = sim.callback(NF).out;
+	let base = if fresh {
+		let mut still = Sim::basic();
+		let _keep = build(&mut still);
+		still.callback(NF);
+		still.callback(NF).out
+	} else {
+		sim.callback(NF);
+		sim.callback(NF).out
+	};
 	let (bl, br) = (gain6(base[0], input.left), gain6(base[1], input.right));
 	let start = if sk == "clk" {
 		kira::StartTime::ClockTime(kira::clock::ClockTime { clock: clock.id(), ticks: w, fraction: 0.0 })
